@@ -74,7 +74,7 @@ func (c *Ctx) diagnose(in []byte) string {
 
 func c06(c *Ctx) {
 	c.Rep.TieObs = []string{"O-compile.outcome (ok | panic | hang) of ParseString+Compose"}
-	c.Rep.Rule = "inputs: corpus, every .goht of the repo, hand-written corner seeds, generator files; every k-th prefix, single-byte deletions, structural-token insertions, splices, several line-level edits at once (indentation removed / reduced / increased / with a blank, lines repeated or swapped), random bytes, every indentation profile (depths 0..3) of templates of up to 4 (thorough: 6) lines, size-scaling families; distinct = distinct input bytes; non-trivial = input reaches the template lexer (contains '@goht') or is a scaling family"
+	c.Rep.Rule = "inputs: corpus, every .goht of the repo, hand-written corner seeds, generator files; every k-th prefix, single-byte deletions, structural-token insertions, splices, several line-level edits at once (indentation removed / reduced / increased / with a blank, lines repeated or swapped), random bytes, every indentation profile (depths 0..3) of templates of up to 4 (thorough: 6) lines, every string of up to 3 (thorough: 4) grammar delimiters inside an attribute list and at the start of a line, size-scaling families; distinct = distinct input bytes; non-trivial = input reaches the template lexer (contains '@goht') or is a scaling family"
 	var inputs [][]byte
 	var tags []string
 	seenHash := map[[20]byte]bool{}
@@ -186,6 +186,7 @@ func c06(c *Ctx) {
 			}
 		}
 		add("indent-profile", gen.IndentProfiles(c.N(4, 6))...)
+		add("small-scope", gen.SmallScope(c.N(3, 4))...)
 		for k := 0; k < c.N(300, 20000); k++ {
 			n := c.R.Intn(60)
 			b := make([]byte, n)
